@@ -6,22 +6,22 @@ import "verifharness/vh"
 
 func genAll(env vh.Env, r *vh.Rand) []Case {
 	var cases []Case
-	for i, n := 0, env.N(600, 10); i < n; i++ {
+	for i, n := 0, env.N(400, 15); i < n; i++ {
 		cases = append(cases, genMatchCase(r.Fork()))
 	}
-	for i, n := 0, env.N(400, 10); i < n; i++ {
+	for i, n := 0, env.N(300, 13); i < n; i++ {
 		cases = append(cases, genSiteCase(r.Fork()))
 	}
-	for i, n := 0, env.N(500, 10); i < n; i++ {
+	for i, n := 0, env.N(300, 16); i < n; i++ {
 		cases = append(cases, genSilCase(r.Fork()))
 	}
-	for i, n := 0, env.N(300, 10); i < n; i++ {
+	for i, n := 0, env.N(200, 15); i < n; i++ {
 		cases = append(cases, genSilNCase(r.Fork()))
 	}
-	for i, n := 0, env.N(300, 10); i < n; i++ {
+	for i, n := 0, env.N(200, 15); i < n; i++ {
 		cases = append(cases, genAPICase(r.Fork()))
 	}
-	for i, n := 0, env.N(300, 10); i < n; i++ {
+	for i, n := 0, env.N(200, 15); i < n; i++ {
 		cases = append(cases, genCfgCase(r.Fork()))
 	}
 	cases = append(cases, genSyntax(env, r)...)
